@@ -126,6 +126,9 @@ pub struct HistRun {
     pub with_sort: bool,
     /// strategies used directly and *reused* after a drain: (strategy, drain of a reused one, drain of a fresh one)
     pub reuse: Vec<(&'static str, Vec<(f64, u64)>, Vec<(f64, u64)>)>,
+    /// histograms built around an already populated strategy: (strategy, more values added afterwards?, what the
+    /// closed histogram reports, what the strategy itself drains)
+    pub prefilled: Vec<(&'static str, bool, Vec<(f64, u64)>, Vec<(f64, u64)>)>,
     pub done: bool,
 }
 
@@ -279,6 +282,32 @@ fn hist_main(plan: &Value, slot: Arc<Mutex<Option<HistRun>>>) {
                 run.reuse.push(($name, reused, obs(b.drain())));
             }};
         }
+        // a histogram built around a strategy that already holds observations (recorded through the strategy's own
+        // public trait): closing it - at once, or after more values were added - reports them all
+        macro_rules! prefilled {
+            ($name:literal, $mk:expr, $S:ty) => {{
+                for add_rest in [false, true] {
+                    let mut st = $mk;
+                    for i in &ins[..cut] {
+                        st.record_many(i.x, i.n);
+                    }
+                    let mut h: Histogram<f64, $S> = Histogram::new(st);
+                    let mut reference = $mk;
+                    for i in &ins[..cut] {
+                        reference.record_many(i.x, i.n);
+                    }
+                    if add_rest {
+                        for i in ins[cut..].iter().filter(|i| i.n == 1) {
+                            h.add_value(i.x);
+                            reference.record_many(i.x, 1);
+                        }
+                    }
+                    run.prefilled.push(($name, add_rest, capture(&h.close()).obs, obs(reference.drain())));
+                }
+            }};
+        }
+        prefilled!("SortAndMerge", SortAndMerge::<32>::default(), SortAndMerge<32>);
+        prefilled!("ExponentialAggregationStrategy", ExponentialAggregationStrategy::default(), ExponentialAggregationStrategy);
         reuse!("SortAndMerge", SortAndMerge::<32>::default(), record_many);
         reuse!("ExponentialAggregationStrategy", ExponentialAggregationStrategy::default(), record_many);
         reuse!("AtomicExponentialAggregationStrategy", AtomicExponentialAggregationStrategy::default(), record_many);
@@ -452,6 +481,12 @@ pub fn check_c11(plan: &Value, run: &HistRun) -> Option<Violation> {
     }
     if run.merged_exp.obs != run.seq_exp.obs {
         return Some(Violation::new("merge_changes_exponential", format!("merging two closed exponential histograms differs from one histogram of all values: {:?} vs {:?}", &run.merged_exp.obs[..run.merged_exp.obs.len().min(6)], &run.seq_exp.obs[..run.seq_exp.obs.len().min(6)])));
+    }
+    for (name, added, got, want) in &run.prefilled {
+        // (bitwise: NaN-free lists of (total, occurrences))
+        if got != want {
+            return Some(Violation::new("prefilled_strategy_lost", format!("{name}: a histogram built around a strategy that already held observations (more values added afterwards: {added}) closes to {:?}; the strategy itself holds {:?}", &got[..got.len().min(6)], &want[..want.len().min(6)])));
+        }
     }
     for (name, reused, fresh) in &run.reuse {
         if reused != fresh {
